@@ -523,14 +523,35 @@ def check_fx(chk, b, cases, amap, lres, replay):
     mm = {l.split(" ", 1)[0]: l for l in model}
     bad = 0
     found = False
-    import re as _re
-    norm = lambda t: _re.sub(r":E[A-Z_]+", ":X", t or "")        # engine limit errors <-> model out of fuel / undefined
+    def entries(tok):
+        """'fx=<hdr>|<p>:<a|w>:<rest>|..;<hdr>|..' -> {(hdr, p, pass): rest}"""
+        out = {}
+        body = tok.split("fx=", 1)[1] if "fx=" in tok else ""
+        if body in ("", "-"):
+            return out
+        for pr in body.split(";"):
+            items = pr.split("|")
+            for it in items[1:]:
+                f = it.split(":", 2)
+                if len(f) == 3:
+                    out[(items[0], f[0], f[1])] = f[2]
+        return out
+
     for cid, l, fx in lines:
-        want = "%s %s" % (cid, fx)
-        if norm(mm.get(cid)) != norm(want):
+        A, M = entries(fx), entries(mm.get(cid) or "")
+        diffs = []
+        for k in set(A) | set(M):
+            a, m = A.get(k), M.get(k)
+            # an engine limit error (E...) or a model outcome `X` (out of fuel / behaviour undefined in C: dead fiber reused) is not comparable
+            if (a or "").startswith("E") or (m or "").startswith("X") or (m or "").endswith(":X") or (a or "").endswith(":E"):
+                continue
+            if a != m:
+                diffs.append((k, a, m))
+        if diffs:
             if bad < 5:
                 chk.violation("fx_%s.json" % cid, {"kind": "real bytecode: C VM result differs from the Lean VM model", "engine": "revm", "harness": "h_re", "case": l[:4000],
-                                                  "implementation": want[:3000], "model": (mm.get(cid) or "")[:3000]})
+                                                  "implementation": ("%s %s" % (cid, fx))[:3000], "model": (mm.get(cid) or "")[:3000],
+                                                  "differences": [[list(k), a, m] for k, a, m in diffs[:6]]})
             bad += 1
             found = True
     return {"found": found, "cov": {"cases_with_code": len(lines), "disagreements": bad}}
